@@ -244,6 +244,48 @@ def parse_model_cqm(ans):
     return vs, obj, cons
 
 
+def mutate_text(r, text):
+    """a near miss of a writer-produced text that stays inside the writer's grammar: other line breaks, another number,
+    another sense.  Returns (text, kind) or (None, kind)."""
+    import re
+    cut = text.find('\nBounds')
+    head, tail = text[:cut], text[cut:]
+    kind = r.choice(['rewrap', 'rewrap', 'number', 'rhs', 'sense', 'rewrap names'])
+    if kind == 'rewrap':
+        pos = [i for i in range(1, len(head) - 1) if head[i] == ' ' and head[i - 1] not in ' \n' and head[i + 1] not in ' \n']
+        if not pos:
+            return None, kind
+        for i in sorted(r.sample(pos, min(len(pos), r.randint(1, 6))), reverse=True):
+            head = head[:i] + '\n ' + head[i + 1:]
+        return head + tail, kind
+    if kind == 'rewrap names':
+        pos = [i for i in range(1, len(tail) - 1) if tail[i] == ' ' and tail[i - 1] not in ' \n' and tail[i + 1] not in ' \n' and tail.find('\nBinary') < i]
+        if not pos:
+            return None, kind
+        for i in sorted(r.sample(pos, min(len(pos), r.randint(1, 4))), reverse=True):
+            tail = tail[:i] + '\n ' + tail[i + 1:]
+        return head + tail, kind
+    if kind == 'number':
+        ms = list(re.finditer(r'(?<=[+-] )\d+(\.\d+)?(?= )', head))
+        if not ms:
+            return None, kind
+        m = r.choice(ms)
+        return head[:m.start()] + r.choice(['3', '0.25', '17.5', '1000000', '0.125', '6.0']) + head[m.end():] + tail, kind
+    if kind == 'rhs':
+        ms = list(re.finditer(r'(?<== )-?\d+(\.\d+)?(?=\n|$)', head))
+        if not ms:
+            return None, kind
+        m = r.choice(ms)
+        return head[:m.start()] + r.choice(['3', '-3.5', '0', '0.0', '12.25', '-100']) + head[m.end():] + tail, kind
+    st = head.find('Subject To')
+    ms = list(re.finditer(r' (<=|>=|=) ', head[st:]))
+    if not ms:
+        return None, kind
+    m = r.choice(ms)
+    new = r.choice([x for x in ('<=', '>=', '=') if x != m.group(1)])
+    return head[:st + m.start()] + ' ' + new + ' ' + head[st + m.end():] + tail, kind
+
+
 def run(ctx):
     r = ctx.rng
     ctx.rule = ('random LP-expressible CQMs (1-8 variables, labels over the full LP alphabet incl. 255-character labels, default and '
@@ -391,6 +433,18 @@ def run(ctx):
         lines.append('load ' + text.encode().hex())
         expect.append(('REAL', (bvars, bobj, bcons)))
         meta.append(('lp.loads', text))
+        # (ii') the same on a near miss of the text: the real parser and the specification reader must read the same model
+        if r.random() < .35:
+            mt, mkind = mutate_text(r, text)
+            if mt is not None and mt != text:
+                try:
+                    mb = canon_real(lp.loads(mt))
+                except Exception:  # noqa
+                    mb = None
+                ctx.tick('near miss: ' + mkind + ('' if mb is not None else ' (refused by the real parser)'))
+                ctx.case(('near miss', mt), nontrivial=True)
+                if mb is not None:
+                    lines.append('load ' + mt.encode().hex()); expect.append(('REAL', mb)); meta.append((f'lp.loads (near miss: {mkind})', mt))
     # two-word keywords ("subject to", "such that", any case): the reader joins two names that follow each other, which
     # happens in the Binary / General sections.  Every layout must be refused or read back as written.
     for w1, w2 in (('subject', 'to'), ('such', 'that')):
